@@ -67,8 +67,10 @@ class C03(Prop):
             case['sseed'] = rng.randrange(1 << 30)
         elif rng.random() < 0.12:
             # another sampling period (default unit s): one sample is no longer one default unit
-            case['period'] = rng.choice([[500, 'ms'], [2, 's'], [250, 'ms'], [4, 's']])
+            case['period'] = rng.choice([[500, 'ms'], [2, 's'], [250, 'ms'], [4, 's'], [1, 's'], [1, 's']])
             case['punit'] = rng.choice(['s', 's', 'ms', 'ms', 'us'])        # default unit the bounds are written in
+            if case['period'] == [1, 's']:
+                case['punit'] = rng.choice(['ms', 'us'])      # (the numeral 1 in another unit than the default one)
         elif rng.random() < 0.12:
             from rtverif import pastmodel
             from rtverif.props.c06 import SEMS
